@@ -283,8 +283,9 @@ var (
 )
 
 type parser struct {
-	b   []byte
-	pos int
+	b    []byte
+	pos  int
+	opts *RenderOpts
 }
 
 func (p *parser) take(n int) ([]byte, error) {
@@ -307,8 +308,24 @@ func (p *parser) uint(ntype string, le bool) (uint64, error) {
 func (p *parser) value(typeName string) (*Value, error) {
 	ts := Types[typeName]
 	le := ts.LE
+	if p.opts != nil && p.opts.FlipEndian {
+		le = !le
+	}
 	v := &Value{Type: typeName, F: make([]FV, len(ts.Fields))}
-	for i, f := range ts.Fields {
+	order := make([]int, len(ts.Fields))
+	for i := range order {
+		order[i] = i
+	}
+	if p.opts != nil && p.opts.SwapAt != nil {
+		if k := p.opts.SwapAt(ts); k >= 0 && k+1 < len(order) {
+			order[k], order[k+1] = order[k+1], order[k]
+		}
+	}
+	for _, i := range order {
+		f := ts.Fields[i]
+		if p.opts != nil && p.opts.FieldHook != nil {
+			p.opts.FieldHook(ts, i, &f)
+		}
 		x := &v.F[i]
 		switch f.Kind {
 		case "num", "len", "checksum":
@@ -453,8 +470,12 @@ func minSize(typeName string) int {
 // Parse reads one message of the given type from the front of b as the pinned
 // schema defines it and returns the value a decoder must produce and the number
 // of bytes the message occupies.
-func Parse(typeName string, b []byte) (*Value, int, error) {
-	p := &parser{b: b}
+func Parse(typeName string, b []byte) (*Value, int, error) { return ParseWith(typeName, b, nil) }
+
+// ParseWith parses under a perturbed schema (used only to measure whether a case
+// distinguishes plausible layout changes).
+func ParseWith(typeName string, b []byte, opts *RenderOpts) (*Value, int, error) {
+	p := &parser{b: b, opts: opts}
 	v, err := p.value(typeName)
 	if err != nil {
 		return nil, p.pos, err
